@@ -130,7 +130,9 @@ Print Assumptions C02_xor_unsigned.
 
 (* ---- shifts: x << n is x * 2^n, rejected beyond 512 bits; a count >= 512 is
    rejected for << (whatever x is, also 0); a negative count is rejected;
-   x >> n is the floor of x / 2^n for every count that fits uint *)
+   x >> n is the floor of x / 2^n for every count that fits uint, rejected
+   when the result is beyond 512 bits (0x1p1000 >> 65, accepted before fix
+   c78e043), which never happens for an operand below 512 bits *)
 Theorem C02_shl :
   (forall small z n, 0 <= n < 512 ->
   shift_int OShl small z (Num (I64 n)) =
@@ -152,9 +154,14 @@ Print Assumptions C02_shl.
 
 
 
-Theorem C02_shr_exact : forall small z n, 0 <= n -> in64 n ->
-  shift_int OShr small z (Num (I64 n)) = Ok (Num (if small then I64 (z / 2 ^ n) else Big (z / 2 ^ n))).
-Proof. exact shr_exact. Qed.
+Theorem C02_shr_exact :
+  (forall small z n, 0 <= n -> in64 n ->
+  shift_int OShr small z (Num (I64 n)) =
+    if small then Ok (Num (I64 (z / 2 ^ n)))
+    else if Z.abs (z / 2 ^ n) <? 2 ^ 512 then Ok (Num (Big (z / 2 ^ n))) else Err EShlOverflow) /\
+  (forall z n, 0 <= n -> in64 n -> Z.abs z < 2 ^ 512 ->
+  shift_int OShr false z (Num (I64 n)) = Ok (Num (Big (z / 2 ^ n)))).
+Proof. split; [exact shr_exact|exact shr_no_overflow]. Qed.
 Print Assumptions C02_shr_exact.
 
 
@@ -317,6 +324,11 @@ Proof. exact bool_ops. Qed.
 Example C02_example_complex :
   bin_cplx OMul (I64 3) (I64 4) (I64 3) (I64 4) = Ok (Cplx (I64 (-7)) (I64 24)) /\
   bin_cplx ODiv (I64 1) (I64 2) (I64 3) (I64 4) = Ok (Cplx (Rat 11 25) (Rat 2 25)).
+Proof. vm_compute. split; reflexivity. Qed.
+
+Example C02_example_shr_of_float_above_512_bits :
+  shift_rc OShr (BigF (FFin false 1 1000)) (Num (I64 65)) = Err EShlOverflow /\
+  shift_rc OShr (BigF (FFin false 1 600)) (Num (I64 200)) = Ok (Num (Big (2 ^ 400))).
 Proof. vm_compute. split; reflexivity. Qed.
 
 Example C02_example_minint_div : bin_i64 ODiv min64 (-1) = Ok (Num (Big (2 ^ 63))).
